@@ -1,12 +1,13 @@
 """Utility layer over exported facts: CFG, dominators, defs, alias classes, awaits."""
-import json, collections, re
+import json, collections, re, os
 
 
 class Facts:
-    def __init__(self, paths):
+    def __init__(self, paths, inline=True):
         self.bodies = {}
         self.types = {}
         self.adts = {}
+        raws = {}
         for p in paths:
             d = json.load(open(p))
             c = d['crate']
@@ -15,9 +16,25 @@ class Facts:
                 self.types[(c, i)] = t
             for b in d['bodies']:
                 b['crate'] = c
-                self.bodies[b['id']] = Body(self, b)
+                raws[b['id']] = b
             for a in d['adts']:
                 self.adts[a['id']] = a
+        self.original = {bid: Body(self, r) for bid, r in raws.items()}
+        self.inliner = None
+        if inline and os.environ.get('BV_NO_INLINE') != '1':
+            from .inline import Inliner
+            from .known_private import KNOWN_PRIVATE
+            inl = Inliner(raws, lambda r: r['q'] in KNOWN_PRIVATE)
+            flat = {bid: inl.flat(bid) for bid in raws}
+            gone = inl.absorbed()
+            for bid, r in flat.items():
+                if bid not in gone:
+                    self.bodies[bid] = Body(self, r)
+            self.inliner = inl
+            self.absorbed = gone
+        else:
+            self.bodies = dict(self.original)
+            self.absorbed = set()
         self._stable = None
 
     def stable_names(self):
@@ -28,10 +45,10 @@ class Facts:
 
             def nm(b, depth=0):
                 par = b.raw.get('parent')
-                if par and par in self.bodies and depth < 12:
-                    return nm(self.bodies[par], depth + 1) + '::{closure}'
+                if par and par in self.original and depth < 12:
+                    return nm(self.original[par], depth + 1) + '::{closure}'
                 return b.q
-            for b in self.bodies.values():
+            for b in self.original.values():
                 name = nm(b)
                 m[b.id] = name
                 m[b.q] = name
@@ -45,6 +62,17 @@ class Facts:
             if old in text and ('{impl#' in old or '{closure#' in old):
                 text = text.replace(old, new)
         return re.sub(r'\{closure#\d+\}', '{closure}', text)
+
+
+def _rule_sources():
+    """text of all rule modules: a private function named there is an anchor and is not inlined"""
+    base = os.path.dirname(os.path.abspath(__file__))
+    out = []
+    for d in (base, os.path.join(base, 'rules')):
+        for fn in sorted(os.listdir(d)):
+            if fn.endswith('.py') and fn not in ('inline.py', 'facts.py'):
+                out.append(open(os.path.join(d, fn)).read())
+    return '\n'.join(out)
 
 
 def strip_generics(s):
@@ -65,6 +93,36 @@ def strip_generics(s):
         out.append(s[i])
         i += 1
     return ''.join(out)
+
+
+class DomSet:
+    def __init__(self, body, bi, classic):
+        self.body, self.bi, self.classic = body, bi, classic
+
+    def __contains__(self, a):
+        return a in self.classic or (isinstance(a, int) and self.body._ps_dominates(a, self.bi))
+
+    def __iter__(self):
+        return iter(self.classic)
+
+    def __len__(self):
+        return len(self.classic)
+
+
+class DomMap:
+    def __init__(self, body, classic):
+        self.body, self.classic = body, classic
+
+    def get(self, bi, default=None):
+        if bi not in self.classic:
+            return default
+        return DomSet(self.body, bi, self.classic[bi])
+
+    def __getitem__(self, bi):
+        return DomSet(self.body, bi, self.classic[bi])
+
+    def __contains__(self, bi):
+        return bi in self.classic
 
 
 def succs(term):
@@ -141,26 +199,71 @@ class Body:
     def reachable(self):
         seen = {0}
         w = [0]
+        fe = self.feasible_edges()
         while w:
             x = w.pop()
             for s in succs(self.blocks[x]['term']):
-                if s not in seen and not self.blocks[s].get('cleanup'):
+                if s not in seen and not self.blocks[s].get('cleanup') and (fe is None or (x, s) in fe):
                     seen.add(s)
                     w.append(s)
         return seen
 
+    def feasible_edges(self):
+        """for a flattened body: the CFG edges that remain when the `?` dispatch after an inlined helper is resolved with
+        the variant the helper is known to return on that path (None for bodies without inlined frames)"""
+        if not self.raw.get('inlined'):
+            return None
+        if not hasattr(self, '_fe'):
+            from .paths import Explorer, Rule
+            ex = Explorer(self, Rule())
+            try:
+                ex.run()
+                self._fe = ex.edges
+            except RuntimeError:
+                self._fe = None
+        return self._fe
+
     def preds(self):
         p = collections.defaultdict(list)
+        fe = self.feasible_edges()
         for b in self.reachable():
             for s in succs(self.blocks[b]['term']):
-                if not self.blocks[s].get('cleanup'):
+                if not self.blocks[s].get('cleanup') and (fe is None or (b, s) in fe):
                     p[s].append(b)
         return p
 
     def dominators(self):
-        """dom[b] = set of blocks dominating b (iterative; bodies are small)"""
+        """dom[b] = blocks dominating b.  For a flattened body membership is decided path-sensitively when the plain CFG says
+        no: after an inlined helper returned, only the side of the `?` dispatch that matches what the helper returned on that
+        path is followed, so a check inside a helper dominates what follows the helper's success."""
         if self._dom is not None:
             return self._dom
+        classic = self._classic_dominators()
+        self._dom = DomMap(self, classic) if self.raw.get('inlined') else classic
+        return self._dom
+
+    def _ps_dominates(self, a, bi):
+        if not hasattr(self, '_psd'):
+            self._psd = {}
+        if a not in self._psd:
+            from .paths import Explorer, Rule
+
+            class Passed(Rule):
+                init = False
+
+                def on_term(self_, b, x, t, state):
+                    return True if x == a else state
+            ex = Explorer(self, Passed())
+            try:
+                IN = ex.run()
+                self._psd[a] = {x for x, sts in IN.items() if sts and all(rs for (rs, oc) in sts)} | {a}
+            except RuntimeError:
+                self._psd[a] = {a}
+        return bi in self._psd[a]
+
+    def _classic_dominators(self):
+        if getattr(self, '_cdom', None) is not None:
+            return self._cdom
         reach = sorted(self.reachable())
         preds = self.preds()
         allb = set(reach)
@@ -179,7 +282,7 @@ class Body:
                 if new != dom[b]:
                     dom[b] = new
                     changed = True
-        self._dom = dom
+        self._cdom = dom
         return dom
 
     # ---------------------------------------------------------------- defs / aliases
@@ -191,6 +294,9 @@ class Body:
             blk = self.blocks[bi]
             for si, st in enumerate(blk['stmts']):
                 if st['k'] == 'assign':
+                    # a store through a reference (`(*r).f = ..`) changes what r points to, it does not define r
+                    if st['pl']['p'] and st['pl']['p'][0]['k'] == 'deref':
+                        continue
                     d[st['pl']['l']].append(('assign', st, bi, si))
             t = blk['term']
             if t['k'] == 'call':
